@@ -246,6 +246,57 @@ def auth(ctx, prog):
             ctx.violation(rule, body.id, "Ok(()) without accepting edge",
                           "handle_auth returns Ok(()) on a path that is not dominated by an accepting test (no auth configured / callback true / password match) with login present",
                           site=body.loc(body.blocks[o]["t"].get("sp")))
+    credential_operands(ctx, prog, body)
+
+
+def credential_operands(ctx, prog, body):
+    """which values the accepting tests are applied to: the external callback gets (client_id, login.username,
+    login.password) in that order; the table is looked up by login.username and its entry compared with login.password"""
+    rule = "R-C19-auth"
+    CONV = [r"Clone>::clone$", r"ToOwned>::to_owned$", r"ToOwned for str>::to_owned$", r"ToString>::to_string$", r"Into<.*>>::into$", r"String::as_bytes$", r"str>::as_bytes$", r"Deref>::deref$", r"String::as_str$"]
+
+    def role(op):
+        src = [x for x in flatten_src(provenance(body, op, through_calls=CONV)) if not (x.kind == "call" and any(re.search(c, x.path) for c in CONV))]
+        roles = set()
+        for x in src:
+            f = [y.lstrip("^") for y in (getattr(x, "fields", None) or [])]
+            if x.kind == "param" and f[:1] == ["client_id"]:
+                roles.add("client_id")
+            elif x.kind == "param" and f[:1] == ["login"] and f[-1:] in (["username"], ["password"]):
+                roles.add(f[-1])
+            elif x.kind == "call" and re.search(r"HashMap::<K, V, S(, A)?>::get$", x.path):
+                roles.add("stored")
+            else:
+                roles.add("?%s:%s" % (x.kind, ".".join(f) or getattr(x, "path", "")))
+        return roles
+    calls = [(bb, t) for bb, t in body.calls() if re.search(r"ops::Fn::call$|ops::function::Fn::call$", callee_path(t)) and not body.is_cleanup(bb)]
+    ctx.floor(rule, "calls of the external auth callback", len(calls), 1)
+    for bb, t in calls:
+        got = None
+        for s_ in flatten_src(provenance(body, t["args"][1])):
+            if s_.kind == "agg" and len(s_.rv.get("ops", [])) == 3:
+                got = [role(o) for o in s_.rv["ops"]]
+        want = [{"client_id"}, {"username"}, {"password"}]
+        if got == want:
+            ctx.ok(rule, body.id, "external callback is called with (client_id, login.username, login.password)", site=body.loc(t.get("sp")))
+        else:
+            ctx.violation(rule, body.id, "external callback arguments",
+                          "the external authentication callback is called with %s instead of (client_id, username, password): it is asked about other credentials than the CONNECT carried" % (got,), site=body.loc(t.get("sp")))
+    gets = [(bb, t) for bb, t in body.calls() if re.search(r"HashMap::<K, V, S(, A)?>::get$", callee_path(t)) and not body.is_cleanup(bb)]
+    cts = [(bb, t) for bb, t in body.calls() if re.search(r"ConstantTimeEq>::ct_eq$", callee_path(t)) and not body.is_cleanup(bb)]
+    ctx.floor(rule, "credential table lookups / constant-time comparisons", min(len(gets), len(cts)), 1)
+    for bb, t in gets:
+        r_ = role(t["args"][1])
+        if r_ == {"username"}:
+            ctx.ok(rule, body.id, "credential table is looked up by login.username", site=body.loc(t.get("sp")))
+        else:
+            ctx.violation(rule, body.id, "table lookup key", "the static credential table is looked up by %s instead of login.username" % sorted(r_), site=body.loc(t.get("sp")))
+    for bb, t in cts:
+        ra, rb = role(t["args"][0]), role(t["args"][1])
+        if (ra == {"stored"} and rb == {"password"}) or (rb == {"stored"} and ra == {"password"}):
+            ctx.ok(rule, body.id, "stored password is compared with login.password", site=body.loc(t.get("sp")))
+        else:
+            ctx.violation(rule, body.id, "password comparison operands", "ct_eq compares %s with %s instead of the stored password with login.password" % (sorted(ra), sorted(rb)), site=body.loc(t.get("sp")))
 
 
 def router(ctx, prog):
